@@ -254,6 +254,51 @@ fn generate_long_haul(rng: &mut Rng) -> TScenario {
     TScenario { lat, lon, max_range: 1e9, events, log_level: 0 }
 }
 
+/// Inbound from far away: one aircraft is heard for minutes while still beyond the range limit
+/// (hundreds of consecutive rejected pairings), then crosses the limit and flies on towards the
+/// receiver; sometimes it leaves again and comes back. Whatever the tracker accumulates per
+/// rejection has time to saturate before the first pairing that has to be published.
+fn generate_long_inbound(rng: &mut Rng) -> TScenario {
+    let lat = *rng.pick(&[35.0, -35.0, 52.0, 0.0]);
+    let lon = *rng.pick(&[-80.0, 4.0, 80.0, 0.0]);
+    let max_range = *rng.pick(&[50.0, 100.0, 200.0]);
+    // reports every 0.5 s at 450 kt (0.116 km each): n_out rejected pairings before the limit
+    let n_out = *rng.pick(&[70usize, 130, 270, 300, 520]);
+    let bearing = rng.f64_range(0.0, 360.0);
+    let speed_kms = 450.0 * 1.852 / 3600.0;
+    let start_dist = max_range + n_out as f64 * 0.5 * speed_kms;
+    let mut tx = Tx {
+        addr: [0x48, 0x41, 0xd7],
+        df18_cf: None,
+        ca: 5,
+        start: wire::destination((lat, lon), bearing, start_dist),
+        heading: (bearing + 180.0) % 360.0,
+        speed_kms,
+        alt_ft: 30_000,
+        alt_mode: 0,
+        parity_random: false,
+        next_odd: rng.coin(),
+        callsign: "INBND".into(),
+        active_from: 0.0,
+        active_to: 1e9,
+        teleports: vec![],
+    };
+    let other = [0xa0, 0x00, 0x02];
+    let mut events = vec![];
+    let mut t = 0.0f64;
+    let n = n_out + 60 + rng.usize_below(120);
+    for i in 0..n {
+        let bytes = gen_position(rng, &mut tx, t);
+        events.push(TEv::Frame { t: (t * 1e9) as u64, hex: wire::hex(&bytes), note: String::new() });
+        if i % 41 == 0 {
+            let id = wire::df17(5, other, wire::me_identification(4, 0, "OTHER"));
+            events.push(TEv::Frame { t: (t * 1e9) as u64 + 1000, hex: wire::hex(&id), note: String::new() });
+        }
+        t += 0.5;
+    }
+    TScenario { lat, lon, max_range, events, log_level: 0 }
+}
+
 /// Crowded sky: a few hundred distinct addresses with a handful of frames each and expiry cycles
 /// (anything that depends on the number of tracked aircraft, or on many add/expire cycles).
 fn generate_crowded(rng: &mut Rng) -> TScenario {
@@ -396,6 +441,9 @@ pub fn generate(rng: &mut Rng, fault_free: bool, focus: &str) -> TScenario {
     }
     if focus == "C14" && !fault_free && rng.chance(0.003) {
         return generate_long_haul(rng);
+    }
+    if focus == "C13" && !fault_free && rng.chance(0.004) {
+        return generate_long_inbound(rng);
     }
     if (focus == "C12" || focus == "C15") && !fault_free && rng.chance(0.002) {
         return generate_crowded(rng);
